@@ -49,18 +49,29 @@ exec(open(os.path.join(HERE, 'tools', 'manifest_checks.py')).read())  # pylint: 
 _LATER = {
     'C02': ' Further complete sweeps: extreme 2/3/4/8-byte integers at every offset, every enum name replaced by every '
            'other name of its enumeration, big-integer / coordinate boundary fills of every length-prefixed span, every '
-           'byte-string constant of the library at every offset.',
+           'byte-string constant of the library at every offset, pairs of span faults (one emptied, one grown), pairs of '
+           'single-octet faults and truncation + octet faults on small inputs, grammar fragments at the end of every text '
+           'value, identifiers of the data hub tables swapped.',
     'C03': ' A receive buffer object refilled in place must give what a fresh copy of its content gives; a unit accepted '
-           'alone is accepted whatever follows it (tens of KiB included).',
-    'C04': ' Equal-length handshake twins, one message per record, units the library composes but does not accept whole.',
-    'C12': ' Position operands of wrong type or absurd size are injected as faults.',
-    'C13': ' Complete sweeps: every accepted input of every class observed around compose(); every class under a fixed '
-           'series of caller edits; one observation history per class.',
+           'alone is accepted whatever follows it (tens of KiB included); complete single-octet sweeps of every small '
+           'binary seed (+-1, +2, 00, ff; shorter and with data behind) and of the first of two coalesced units; units '
+           'whose 24-bit length is at its maximum.',
+    'C04': ' Equal-length handshake twins, one message per record, senders that edit items in place, spec senders '
+           '(SSL 2.0 long header, LDAP BER forms, OpenVPN key ids), units the library composes but does not accept whole.',
+    'C12': ' Position operands of wrong type or absurd size, one-shot iterables and wrong-valued items are injected as '
+           'faults; declared bounds are compared with a committed reference table.',
+    'C13': ' Complete sweeps: every accepted input of every class observed around compose(), with fields broken and '
+           'restored between calls and the caller writing into returned buffers; every class under a fixed series of '
+           'caller edits; one observation history per class; identity scans for shared mutable objects between two '
+           'parses, between default values (nested) and in non-attrs classes.',
     'C14': ' Complete sweeps over accepted inputs: every length-prefixed value / token replaced by other alphabets and '
-           'boundary values, every single octet overwritten; whatever is still accepted must serialise well-formed.',
-    'C19': ' Nesting shapes (a seed nested in its own recursion point), length-prefixed item shapes, depth growth and '
-           'repeat-after-sweep clauses.',
-    'C11': ' Flag words are parsed again after the earlier result was edited; fixed-length mpints in all byte orders.',
+           'boundary values, every number by small numbers and special tokens, every single octet overwritten; whatever '
+           'is still accepted must serialise well-formed (NaN / Infinity are not JSON); every valid input is compared '
+           'with its compose-parse round trip; histories also run under other time zones.',
+    'C19': ' Nesting shapes (a seed nested in its own recursion point), length-prefixed item shapes, whole-unit and '
+           'mutated-unit repetition, pairwise distinct / unterminated items, depth growth and repeat-after-sweep clauses.',
+    'C11': ' Flag words are parsed again after the earlier result was edited; fixed-length mpints in all byte orders; '
+           'byte order assigned after construction; arrays with one bad item; default clock values under every zone.',
 }
 for _pid, _more in _LATER.items():
     if _pid in CHECKS:
